@@ -1,6 +1,7 @@
 package props
 
 import (
+	"bytes"
 	"io"
 
 	"github.com/bytedance/gopkg/lang/mcache"
@@ -16,7 +17,7 @@ func init() {
 		ID: "C02", Run: runC02, QuickRuns: 150000, ThoroughRuns: 5000000,
 		Rule:       "Each run: 1..8 well-formed typed value trees (all 11 types, the 11x11 key/value pairs swept over the batch, containers of 0/1/2/many, fixed- and variable-size elements, chains nested up to 63, strings from 0 bytes to beyond the reader's buffer) encoded back to back with keyed raw chunks in between and keyed trailing bytes, delivered by a simulated Source (all fragmentation profiles, zero reads, last bytes together with io.EOF) to one stream-fed skipper (BufferReader.Skip / SkipDecoder.Next over bufiox.DefaultReader, ReaderSkipDecoder.Next directly over the Source), interleaved with Release, ordinary reads and pooled-decoder reuse; the flat bytes also go to BytesSkipDecoder and Binary.Skip. Oracle: reference encoder length/bytes, ReadLen delta, Source cursor (no read-ahead).",
 		Components: realComponents,
-		Probes:     []string{"value_larger_than_buffer", "value_last_bytes_with_eof", "eof_right_after_value", "depth_ge_32", "rsd_grow_with_prefix", "decoder_reused_from_pool", "skip_after_release"},
+		Probes:     []string{"value_larger_than_buffer", "value_last_bytes_with_eof", "eof_right_after_value", "depth_ge_32", "rsd_grow_with_prefix", "decoder_reused_from_pool", "skip_after_release", "pool_decoy_failed_use"},
 	})
 }
 
@@ -91,6 +92,46 @@ func genSkipStream(c *sim.Ctx, st *sim.Stream, maxDepth int) (items []skipItem, 
 	return
 }
 
+// poolDecoy uses and releases one pooled object of every kind on an input that fails in
+// the middle of a value: whatever state such a use leaves in the pooled object must not leak
+// into the next, well-formed use.
+func poolDecoy(c *sim.Ctx, st *sim.Stream) {
+	o := &ref.GenOpts{MaxDepth: 4}
+	budget := 200
+	v := ref.GenValue(st, []byte{ref.TStruct, ref.TMap, ref.TList, ref.TString}[st.Choose(4)], o, 0, &budget)
+	enc := ref.Encode(v)
+	if len(enc) < 2 {
+		return
+	}
+	cut := enc[:1+st.Choose(len(enc)-1)]
+	t := thrift.TType(v.T)
+	c.Count("probe.pool_decoy_failed_use")
+	c.Guard("decoy", func() {
+		switch st.Choose(4) {
+		case 0:
+			sd := thrift.NewBytesSkipDecoder(append([]byte(nil), cut...))
+			_, _ = sd.Next(t)
+			sd.Release()
+		case 1:
+			r := bufiox.NewBytesReader(append([]byte(nil), cut...))
+			sd := thrift.NewSkipDecoder(r)
+			_, _ = sd.Next(t)
+			sd.Release()
+			r.Release(nil)
+		case 2:
+			sd := thrift.NewReaderSkipDecoder(bytes.NewReader(cut))
+			_, _ = sd.Next(t)
+			sd.Release()
+		case 3:
+			r := bufiox.NewBytesReader(append([]byte(nil), cut...))
+			br := thrift.NewBufferReader(r)
+			_ = br.Skip(t)
+			br.Recycle()
+			r.Release(nil)
+		}
+	})
+}
+
 func runC02(c *sim.Ctx) {
 	cfg := c.Cfg
 	c.SetupAlloc(allocCfg(cfg, false))
@@ -105,6 +146,9 @@ func runC02(c *sim.Ctx) {
 	facility := cfg.Choose(3)
 	c.Tracef("cfg  facility=%s stream=%d bytes in %d items; %s", []string{"BufferReader.Skip", "SkipDecoder.Next", "ReaderSkipDecoder.Next"}[facility], len(stream), len(items), scfg.String())
 	co := newCoTenant(c, cfg.Chance(1, 3))
+	if cfg.Chance(1, 2) {
+		poolDecoy(c, st)
+	}
 	switch facility {
 	case 0, 1:
 		skipOverBufiox(c, st, items, stream, src, facility, co)
@@ -290,6 +334,9 @@ func skipOverReader(c *sim.Ctx, st *sim.Stream, items []skipItem, stream []byte,
 
 func flatPartners(c *sim.Ctx, items []skipItem, stream []byte) {
 	flat := append([]byte(nil), stream...)
+	if c.Cfg.Chance(1, 2) {
+		poolDecoy(c, c.Tape.S("ops"))
+	}
 	bsd := thrift.NewBytesSkipDecoder(flat)
 	for _, it := range items {
 		if it.raw {
